@@ -13,6 +13,9 @@ KEY_NAMES = ["comment", "source", "private", "announce", "info", "pieces", "leng
              "file tree", "piece layers", "url-list", "httpseeds", "attr", "meta version", "piece length",
              "announce-list", "creation date", "pieces root", "created by"]
 NAME_POOL += KEY_NAMES
+# unusual but valid names: control characters, backslash, 4-byte UTF-8, combining vs precomposed, dots, length
+NAME_POOL += ["new\nline", "tab\tname", "back\\slash", "😀.bin", "e\u0301.txt", "a.", "..a", "...", "-", "--opt",
+              "x" * 180, "UPPER", "upper", "a\u00a0b", "'q'", '"dq"', "*glob?", "[b]", "{c}", "$HOME", "~", "%s", "a,b", "a;b"]
 DIR_POOL = ["a", "d", "dir", "sub", "A", "a.d", "z", "ä", "x y", "d1", "d2", "nested", "a0", ".h",
             "source", "comment", "info", "files", "path", "a-", "a 2", "a(1)"]
 
@@ -59,7 +62,7 @@ def pick_size(rng, pl, maxp=6):
 
 
 def pick_pl_exp(rng, tier, lo=14, hi=None):
-    hi = hi or (18 if tier == "quick" else 20)
+    hi = hi or (18 if tier == "quick" else 21)
     # bias to the small piece lengths: more pieces per byte hashed
     return rng.choice([14, 14, 14, 15, 15, 15, 16, 16, 17] + list(range(lo, hi + 1)))
 
@@ -75,6 +78,28 @@ def _names(rng, n, pool):
     return out
 
 
+def _gen_many(rng, pl, cs):
+    """100-300 small files over a few nested directories (long listings, many pieces straddling many files)."""
+    files = []
+    n = rng.randint(100, 300)
+    dirs = ["", "", "a/", "a/b/", "z/", "m/n/o/"]
+    for i in range(n):
+        files.append([f"{rng.choice(dirs)}f{i:04d}", rng.choice([0, 1, 3, 50, 200, 1000, rng.randint(0, 5000)]), cs + i])
+    files.append(["big.bin", pl * rng.choice([1, 2, 3]) + rng.choice([0, 1, -1]), cs + n])
+    return files
+
+
+def _gen_deep(rng, pl, cs):
+    """few files, directory depth up to 10, long path components."""
+    files = []
+    for i in range(rng.randint(2, 5)):
+        depth = rng.randint(5, 10)
+        comps = [rng.choice(["d", "dd", "x" * rng.choice([1, 40, 120]), "ä" * 20, "sub dir"]) + str(rng.randrange(3))
+                 for _ in range(depth)]
+        files.append(["/".join(comps) + f"/leaf{i}" + "n" * rng.choice([0, 100]), pick_size(rng, pl, 3), cs + i])
+    return files
+
+
 def gen_tree(rng, pl, tier="quick", layout=None, allow_single=True, min_files=1, nonempty_total=True,
              maxp=None, ascii_names=False):
     """Returns dict(name, single, files=[[rel, size, cseed]], dirs=[...], layout)."""
@@ -82,6 +107,8 @@ def gen_tree(rng, pl, tier="quick", layout=None, allow_single=True, min_files=1,
     layouts = ["single", "flat", "flat", "nested", "nested", "tiny", "empties", "dups"]
     if not allow_single:
         layouts = [l for l in layouts if l != "single"]
+    if layout is None and rng.random() < (0.04 if tier == "quick" else 0.08):
+        layout = rng.choice(["many", "deep"])
     layout = layout or rng.choice(layouts)
     pool = [n for n in NAME_POOL if n.isascii()] if ascii_names else NAME_POOL
     dpool = [n for n in DIR_POOL if n.isascii()] if ascii_names else DIR_POOL
@@ -92,7 +119,11 @@ def gen_tree(rng, pl, tier="quick", layout=None, allow_single=True, min_files=1,
         size = pick_size(rng, pl, maxp) or rng.choice([1, pl, pl + 1])
         name = rng.choice(pool) if rng.random() < 0.5 else name + ".bin"
         return {"name": name, "single": True, "files": [[name, size, cs]], "dirs": [], "layout": layout}
-    if layout == "flat":
+    if layout == "many":
+        files = _gen_many(rng, pl, cs)
+    elif layout == "deep":
+        files = _gen_deep(rng, pl, cs)
+    elif layout == "flat":
         n = rng.randint(max(min_files, 1), 8)
         for i, nm in enumerate(_names(rng, n, pool)):
             files.append([nm, pick_size(rng, pl, maxp), cs + i])
